@@ -43,9 +43,11 @@ def main() -> int:
     try:
         rc, out = sh(f"git -C /repo worktree add -q --detach {wt} HEAD")
         assert rc == 0, out
-        (wt / "_seed").mkdir()
-        shutil.copy(demo, wt / "_seed" / "demo.py")
-        rc0, out0 = sh(f"{PY} _seed/demo.py", cwd=str(wt))
+        # the demo sits two levels below the worktree root (as where it was written) and the worktree
+        # comes first on the module path, so that `import jsonpath` is the patched package
+        (wt / "_seed" / "1").mkdir(parents=True)
+        shutil.copy(demo, wt / "_seed" / "1" / "demo.py")
+        rc0, out0 = sh(f"PYTHONPATH={wt} {PY} _seed/1/demo.py", cwd=str(wt))
         meta["demo_clean"] = {"exit": rc0, "tail": out0.strip().splitlines()[-1:] }
         rc, out = sh(f"git apply {patch}", cwd=str(wt))
         meta["patch_applies"] = rc == 0
@@ -56,7 +58,7 @@ def main() -> int:
         meta["compiles"] = rc == 0
         rc, out = sh(f"{PY} -m pytest -q -p no:cacheprovider --continue-on-collection-errors 2>&1 | tail -1", cwd=str(wt))
         meta["suite_with_patch"] = out.strip()
-        rc1, out1 = sh(f"{PY} _seed/demo.py", cwd=str(wt))
+        rc1, out1 = sh(f"PYTHONPATH={wt} {PY} _seed/1/demo.py", cwd=str(wt))
         meta["demo_patched"] = {"exit": rc1, "tail": out1.strip().splitlines()[-2:]}
     finally:
         sh(f"git -C /repo worktree remove --force {wt}")
